@@ -5,7 +5,7 @@ from .core import ( rule, Result, AnalysisError, dotted, call_name, is_call_to, 
                     norm_text, dotted_in, stmt_of, pmatch, pfind, txt )
 from .core import Matcher
 from .cfg import CFG
-from .fold import fold, try_fold, NoFold, run_block, Record, helper_calls
+from .fold import fold, try_fold, NoFold, run_block, Record, helper_calls, Raises
 from . import spec
 from .grammar import grammar_of, Node, Decide, Closure, ClassRef, Unknown
 
@@ -2622,4 +2622,240 @@ def t_bool( ctx ):
         else:
             res.bad( src, fn, 'BOOL.produce( %r ) yields %r' % ( v, got ),
                      'a BOOL renders as 00 / FF for every value the Attribute can hold ( %r here ): an element stored as 0xFF by Set Attribute Single must stay readable by Read Tag / Read Tag Fragmented / Get Attribute Single' % want )
+    return res
+
+
+# ---------------------------------------------------------------------------------------- round 11: T-OFFSET / T-DURTEXT ( C17 ), D-SETDEFAULT / D-COPYLIST ( C16 ), T-TNETNUM ( C20 )
+
+@rule( 'T-OFFSET', props=( 'C17', ), floor=1 )
+def t_offset( ctx ):
+    """times.format_offset / parse_offset: every text format_offset emits is read back by parse_offset as the same offset to the millisecond -
+    both functions evaluated by value on offsets around the places where rounding carries ( 59.9996 s renders as '0:00:60.000' )."""
+    res = Result( 'T-OFFSET' )
+    src = ctx.src( TIMES )
+    h = helper_calls( src.tree, ignore_calls=( 'log', ))
+    wrong = []
+    for dt in ( 0, 1.5, -0.25, 59.9996, 3599.9996, -7259.99977, 3661.001, 86399.9999, -59.9994, 360000.5 ):
+        res.cells += 1
+        try:
+            text = h['call:format_offset']( dt )
+            back = h['call:parse_offset']( text )
+        except Raises as exc:
+            wrong.append(( dt, 'raises %s' % exc )); continue
+        except NoFold as exc:
+            if 'ValueError' in str( exc ) or 'raise' in str( exc ):
+                wrong.append(( dt, str( exc ))); continue
+            raise AnalysisError( 'format_offset / parse_offset: not decision fragments: %s' % exc )
+        if not isinstance( back, ( int, float )) or abs( back - dt ) > 0.00051:
+            wrong.append(( dt, '%r -> %r' % ( text, back )))
+    if wrong:
+        res.bad( src, src.get( 'parse_offset' ), 'offset %r: %s ( %d of %d offsets differ )' % ( wrong[0] + ( len( wrong ), res.cells )),
+                 'a rendered offset does not parse back to the offset it renders: format_offset rounds the seconds alone, so an offset within half a millisecond below a full minute is written h:mm:60.000 - a parser that refuses 60 refuses the module\'s own output' )
+    else:
+        res.ok( src, src.get( 'parse_offset' ), 'every rendered offset parses back to the millisecond ( %d offsets, the rounding carries included )' % res.cells )
+    return res
+
+
+@rule( 'T-DURTEXT', props=( 'C17', ), floor=1 )
+def t_durtext( ctx ):
+    """times.duration._format loses nothing: the text of a duration, read by a reference tokenizer ( number + unit, units y w d h m s ms us as
+    the class's own constants define them ), sums to the duration's microseconds - by value, on records standing for timedeltas."""
+    import re
+    res = Result( 'T-DURTEXT' )
+    src = ctx.src( TIMES )
+    fn = src.get( 'duration._format' )
+    consts = {}
+    for a in src.get( 'duration' ).body:
+        if isinstance( a, ast.Assign ) and len( a.targets ) == 1 and isinstance( a.targets[0], ast.Name ):
+            v = try_fold( a.value, consts, default=None )
+            if v is not None:
+                consts[a.targets[0].id] = v; consts['cls.' + a.targets[0].id] = v; consts['self.' + a.targets[0].id] = v
+    unit = { 'y': consts.get( 'YR' ), 'w': consts.get( 'WK' ), 'd': consts.get( 'DY' ), 'h': consts.get( 'HR' ), 'm': consts.get( 'MN' ), 's': 1 }
+    if None in unit.values():
+        raise AnalysisError( 'duration: unit constants YR / WK / DY / HR / MN not found' )
+    D = fn.args.args[-1].arg
+    wrong = []
+    for days, secs, us in (( 0, 0, 0 ), ( 0, 0, 1 ), ( 0, 0, 999 ), ( 0, 0, 1000 ), ( 0, 0, 1001 ), ( 0, 0, 2000 ), ( 0, 0, 500000 ), ( 0, 5, 1000 ), ( 0, 5, 1 ), ( 0, 3600, 1000 ),
+                            ( 0, 1, 500000 ), ( 400, 7, 0 ), ( 0, 59, 999999 ), ( 7, 0, 0 ), ( 365, 86399, 999000 )):
+        env = dict( consts ); env[D] = Record( days=days, seconds=secs, microseconds=us )
+        try:
+            out = run_block( fn.body, env, ignore_calls=( 'log', ))
+        except NoFold as exc:
+            raise AnalysisError( 'duration._format: not a decision fragment: %s' % exc )
+        text = out.value if out.kind == 'return' else None
+        res.cells += 1
+        total = ( days * 86400 + secs ) * 1000000 + us
+        got = None
+        if isinstance( text, str ):
+            toks = re.findall( r'(\d+(?:\.\d+)?)(us|ms|y|w|d|h|m|s)', text )
+            if ''.join( n + u for n, u in toks ) == text.replace( ' ', '' ):
+                from decimal import Decimal
+                got = int( sum( Decimal( n ) * ( Decimal( 1 ) if u == 'us' else Decimal( 1000 ) if u == 'ms' else Decimal( unit[u] ) * 1000000 ) for n, u in toks ))
+        if got != total:
+            wrong.append(( days, secs, us, text, got, total ))
+    if wrong:
+        res.bad( src, fn, 'duration of %d d %d s %d us is written %r ( = %s us, not %d ); %d of %d durations differ' % ( wrong[0] + ( len( wrong ), res.cells )),
+                 'the text of a duration stands for another duration than the one rendered: parsed back it differs ( a sub-second part of exactly one millisecond vanishes: 5.001 s is written 5s )' )
+    else:
+        res.ok( src, fn, 'the text of a duration sums to the duration, to the microsecond ( %d durations )' % res.cells )
+    return res
+
+
+@rule( 'D-SETDEFAULT', props=( 'C16', ), floor=2 )
+def d_setdefault( ctx ):
+    """dotdict / apidict setdefault answer with what is IN THE TREE under the key afterwards - never with the object passed in: a plain dict
+    assigned becomes a new level of the tree, and the caller of `app = d.setdefault( 'x.application', {} ); app.size = ...` must be handed
+    that level, not its own dict."""
+    res = Result( 'D-SETDEFAULT' )
+    src = ctx.src( 'dotdict.py' )
+    n = 0
+    for cd in [ c for c in src.tree.body if isinstance( c, ast.ClassDef ) ]:
+        for f in [ f for f in cd.body if isinstance( f, ast.FunctionDef ) and f.name == 'setdefault' and len( f.args.args ) >= 3 ]:
+            n += 1
+            DFL = f.args.args[2].arg
+            rets = [ r for r in ast.walk( f ) if isinstance( r, ast.Return ) and r.value is not None ]
+            direct = [ r for r in rets if isinstance( r.value, ast.Name ) and r.value.id == DFL ]
+            # a local that was assigned the parameter itself is the parameter
+            alias = { t.id for a in ast.walk( f ) if isinstance( a, ast.Assign ) and isinstance( a.value, ast.Name ) and a.value.id == DFL for t in a.targets if isinstance( t, ast.Name ) }
+            direct += [ r for r in rets if isinstance( r.value, ast.Name ) and r.value.id in alias ]
+            if direct:
+                res.bad( src, direct[0], '%s.setdefault returns the object it was given ( `%s` )' % ( cd.name, norm_text( direct[0] )),
+                         'a plain dict given as the default is converted into a new level of the tree on assignment: the caller is handed a dict that is NOT in the tree, and what it stores there is lost - keys and lookup disagree with the result of setdefault' )
+            elif not rets:
+                res.bad( src, f, '%s.setdefault returns nothing' % cd.name, 'setdefault answers with the value under the key' )
+            else:
+                res.ok( src, f, '%s.setdefault answers with what the tree holds ( %s )' % ( cd.name, '; '.join( norm_text( r ) for r in rets )))
+    if n < 2:
+        raise AnalysisError( 'dotdict.py: setdefault of dotdict_base and apidict_base not found ( %d )' % n )
+    return res
+
+
+@rule( 'D-COPYLIST', props=( 'C16', ), floor=1 )
+def d_copylist( ctx ):
+    """dotdict_base.__copy__ copies every level, those held in lists included - lookup, assignment, pop and del address a mapping inside a list
+    that also holds plain values ( d['l[3].leaf'] ), so such a mapping is a level like any other.  By value: the expression that copies one
+    value, on a list mixing a number and two levels."""
+    res = Result( 'D-COPYLIST' )
+    src = ctx.src( 'dotdict.py' )
+    fn = src.get( 'dotdict_base.__copy__' )
+    gens = [ g for g in ast.walk( fn ) if isinstance( g, ( ast.GeneratorExp, ast.ListComp, ast.DictComp )) and any( 'items' in txt( c.iter ) for c in g.generators ) ]
+    if not gens:
+        raise AnalysisError( 'dotdict_base.__copy__: the walk over the items not found' )
+    g = gens[0]
+    tgt = g.generators[0].target
+    if not ( isinstance( tgt, ast.Tuple ) and len( tgt.elts ) == 2 and isinstance( tgt.elts[1], ast.Name )):
+        raise AnalysisError( 'dotdict_base.__copy__: the ( key, value ) target not found' )
+    V = tgt.elts[1].id
+    elt = g.elt.elts[1] if isinstance( g, ( ast.GeneratorExp, ast.ListComp )) and isinstance( g.elt, ast.Tuple ) and len( g.elt.elts ) == 2 else g.value if isinstance( g, ast.DictComp ) else None
+    if elt is None:
+        raise AnalysisError( 'dotdict_base.__copy__: the copied value expression not found' )
+    class Level( object ):
+        pass
+    nested = ast.Module( body=[ f for f in fn.body if isinstance( f, ast.FunctionDef ) ], type_ignores=[] )
+    helpers = helper_calls( nested, base_env={ 'isinstance': isinstance, 'list': list, 'all': all, 'any': any, 'dotdict_base': Level, 'dotdict': Level, 'dict': Level } )
+    L1, L2 = Level(), Level()
+    wrong = []
+    for v, where in (( [ 1, 2, L1 ], 2 ), ( [ L1, L2 ], 0 ), ( [ L1, 'x' ], 0 ), ( L1, None ), ( [ 1, 2 ], None )):
+        env = dict( helpers ); env.update( { V: v, 'copy.copy': lambda x: ( 'copied', x ), 'copy': lambda x: ( 'copied', x ), 'isinstance': isinstance, 'list': list, 'all': all, 'any': any,
+                                             'dotdict_base': Level, 'dotdict': Level, 'dict': Level } )
+        try:
+            got = fold( elt, env )
+        except NoFold as exc:
+            raise AnalysisError( 'dotdict_base.__copy__: the copied value is outside the modelled subset: %s' % exc )
+        res.cells += 1
+        if where is None:
+            ok = got == ( 'copied', v ) or ( isinstance( v, list ) and got == [ ( 'copied', e ) for e in v ] )
+        else:
+            ok = isinstance( got, list ) and len( got ) == len( v ) and got[where] == ( 'copied', v[where] )
+        if not ok:
+            wrong.append(( v, got ))
+    if wrong:
+        res.bad( src, fn, 'dotdict.__copy__ of a value %s shares a level with the original' % ( [ 'level' if isinstance( e, Level ) else e for e in wrong[0][0] ] if isinstance( wrong[0][0], list ) else 'level' ),
+                 'a mapping inside a list that also holds plain values is addressed like any level ( d[ "l[3].leaf" ] = 1 ): left shared, a store through the copy changes the original' )
+    else:
+        res.ok( src, fn, 'every level is copied, also the mappings inside lists that hold plain values too ( %d cells )' % res.cells )
+    return res
+
+
+@rule( 'T-TNETNUM', props=( 'C20', ), floor=1 )
+def t_tnetnum( ctx ):
+    """tnetstrings.parse reads back every number payload dump can emit: the branches for '#' and '^' run by value on the texts of Python's own
+    integers and floats - negative zero, exponents, the largest and smallest doubles, infinities and not-a-number included ( the `re` module
+    evaluating a pattern constant of the source is the standard library's, as float() and int() are )."""
+    import re
+    res = Result( 'T-TNETNUM' )
+    src = ctx.src( TNETS )
+    fn = src.get( 'parse' )
+    mod = {}
+    for a in src.tree.body:
+        if isinstance( a, ast.Assign ) and len( a.targets ) == 1 and isinstance( a.targets[0], ast.Name ) and isinstance( a.value, ast.Call ) and call_name( a.value ) in ( 're.compile', 'compile' ) and a.value.args:
+            pat = try_fold( a.value.args[0], default=None )
+            if isinstance( pat, ( str, bytes )):
+                rx = re.compile( pat )
+                mod[a.targets[0].id + '.match'] = rx.match; mod[a.targets[0].id + '.fullmatch'] = rx.fullmatch; mod[a.targets[0].id + '.search'] = rx.search
+    mod.update( { 're.match': re.match, 're.fullmatch': re.fullmatch, 're.search': re.search } )
+    branches = {}
+    for i in ast.walk( fn ):
+        if isinstance( i, ast.If ) and isinstance( i.test, ast.Compare ) and len( i.test.comparators ) == 1:
+            c = try_fold( i.test.comparators[0], default=None )
+            if c in ( b'#', b'^' ) and isinstance( i.test.left, ast.Name ):
+                branches[c] = i.body
+    if set( branches ) != { b'#', b'^' }:
+        raise AnalysisError( 'tnetstrings.parse: the branches for the number payloads ( # and ^ ) not found' )
+    P = [ a.arg for a in fn.args.args ]
+    wrong = []
+    samples = { b'#': [ 0, -1, 7, 2 ** 64, -( 2 ** 63 ) ], b'^': [ 0.0, -0.0, 1.5, 1e16, 5e-324, 1.7976931348623157e308, float( 'inf' ), float( '-inf' ), float( 'nan' ), -2.5e-7 ] }
+    for tag, body in branches.items():
+        for v in samples[tag]:
+            payload = repr( v ).encode( 'ascii' )
+            env = dict( mod ); env.update( { 'payload': payload, 'int': int, 'float': float, 'len': len } )
+            res.cells += 1
+            try:
+                out = run_block( body, env, ignore_calls=( 'log', ))
+            except Raises as exc:
+                wrong.append(( payload, 'raises %s' % exc )); continue
+            except NoFold as exc:
+                raise AnalysisError( 'tnetstrings.parse: number branch outside the modelled subset: %s' % exc )
+            got = env.get( 'value' )
+            same = out.kind == 'fall' and ( got == v or ( got != got and v != v )) and type( got ) is type( v )
+            if not same:
+                wrong.append(( payload, '%s, value %r' % ( out, got )))
+    if wrong:
+        res.bad( src, fn, 'tnetstrings.parse of the number payload %r: %s ( %d of %d payloads differ )' % ( wrong[0] + ( len( wrong ), res.cells )),
+                 'a number dump emits is not read back: parse( dump( x )) raises or differs for it - alone or anywhere inside a list or dictionary' )
+    else:
+        res.ok( src, fn, 'every number payload dump can emit is read back as the same number ( %d payloads, infinities and nan included )' % res.cells )
+    return res
+
+
+@rule( 'M-READCOUNT', props=( 'C19', ), floor=1 )
+def m_readcount( ctx ):
+    """poller_modbus._read hands on exactly the `count` values it asked for: bit responses are unpacked from whole bytes and come padded with up
+    to 7 undefined values, which - stored - would overwrite requested registers just behind the range that another ( unmerged ) range or bank
+    owns.  By value: the returned expression on an 8-bit response to a 3-bit request."""
+    res = Result( 'M-READCOUNT' )
+    src = ctx.src( MODBUS )
+    fn = src.get( 'poller_modbus._read' )
+    rets = [ r for r in ast.walk( fn ) if isinstance( r, ast.Return ) and r.value is not None ]
+    if not rets:
+        raise AnalysisError( 'poller_modbus._read: no return' )
+    COUNT = [ a.arg for a in fn.args.args if a.arg in ( 'count', 'cnt', 'length', 'number' ) ] or [ fn.args.args[-1].arg ]
+    VALS = sorted( n for n in names_in( rets[-1].value ) if n not in COUNT )
+    wrong = []
+    for vals, cnt, want in (( [ 1, 0, 1, 0, 0, 0, 0, 0 ], 3, [ 1, 0, 1 ] ), ( [ 1, 0, 0, 0, 0, 0, 0, 0 ], 1, 1 ), ( [ 7, 8 ], 2, [ 7, 8 ] ), ( list( range( 16 )), 9, list( range( 9 )))):
+        env = { COUNT[0]: cnt, 'len': len }
+        for v_ in VALS:
+            env[v_] = list( vals )
+        try:
+            got = fold( rets[-1].value, env )
+        except NoFold as exc:
+            raise AnalysisError( 'poller_modbus._read: returned expression outside the modelled subset: %s' % exc )
+        res.cells += 1
+        if got != want:
+            wrong.append(( cnt, len( vals ), got ))
+    if wrong:
+        res.bad( src, rets[-1], 'poller_modbus._read asked for %d values, was answered %d and hands on %r' % wrong[0],
+                 'the padding of a bit response is stored into the registers behind the range: a requested coil or input that belongs to another range ( or to the next bank ) is overwritten with an undefined value' )
+    else:
+        res.ok( src, rets[-1], '_read hands on exactly the values it asked for ( %d cells )' % res.cells )
     return res
